@@ -35,7 +35,7 @@ class Untranslatable(Exception):
 
 TOK = re.compile(
     r"\s*(>>=|<<=|=>|==|!=|<=|>=|&&|\|\||\+=|-=|\*=|/=|%=|&=|>>|<<|::|\.\.=|\.\.|->|"
-    r"[A-Za-z_][A-Za-z0-9_]*|\d[\d_]*(?:\.\d+)?(?:u8|u16|u32|u64|u128|usize|i32|i64|f64)?|"
+    r"[A-Za-z_][A-Za-z0-9_]*|0x[0-9A-Fa-f_]+(?:u8|u16|u32|u64|u128|usize)?|\d[\d_]*(?:\.\d+)?(?:u8|u16|u32|u64|u128|usize|i32|i64|f64|f32)?|"
     r"'[a-z_]+(?!')|\"(?:[^\"\\]|\\.)*\"|[(){}\[\],.!:;=+\-*/%<>&|?#@])")
 
 
@@ -425,7 +425,10 @@ class Parser:
             return ("closure", params, self.expr())
         if re.match(r"\d", tok):
             self.eat()
-            return ("num", re.sub(r"(u8|u16|u32|u64|u128|usize|i32|i64|f64)$", "", tok).replace("_", ""))
+            tok = re.sub(r"(u8|u16|u32|u64|u128|usize|i32|i64|f64|f32)$", "", tok).replace("_", "")
+            if tok.startswith("0x"):
+                tok = str(int(tok, 16))
+            return ("num", tok)
         if tok in ("true", "false"):
             self.eat()
             return ("bool", tok == "true")
